@@ -242,3 +242,155 @@ pub fn good_div(a: u32, b: u32) -> u32 {
         a / b
     }
 }
+
+// ---- entry facts established by every call site (argsum) ---------------------------------------------------------
+
+// closed (private, direct calls only), every caller guards: the index is proved from the callers' states
+fn good_entry_guarded(v: &[u8], i: usize) -> u8 {
+    v[i]
+}
+
+pub fn entry_caller_a(v: &[u8], i: usize) -> u8 {
+    if i < v.len() {
+        good_entry_guarded(v, i)
+    } else {
+        0
+    }
+}
+
+pub fn entry_caller_b(v: &[u8]) -> u8 {
+    if v.len() > 3 {
+        good_entry_guarded(v, 3)
+    } else {
+        0
+    }
+}
+
+// closed, but one of two callers does not guard
+fn bad_entry_one_unguarded(v: &[u8], i: usize) -> u8 {
+    v[i]
+}
+
+pub fn entry_caller_c(v: &[u8], i: usize) -> u8 {
+    if i < v.len() {
+        bad_entry_one_unguarded(v, i)
+    } else {
+        0
+    }
+}
+
+pub fn entry_caller_d(v: &[u8], i: usize) -> u8 {
+    bad_entry_one_unguarded(v, i)
+}
+
+// every direct caller guards, but the function also escapes as a value: not closed
+fn bad_entry_fn_value(v: &[u8], i: usize) -> u8 {
+    v[i]
+}
+
+pub fn entry_caller_e(v: &[u8], i: usize) -> u8 {
+    if i < v.len() {
+        bad_entry_fn_value(v, i)
+    } else {
+        0
+    }
+}
+
+pub fn entry_escape() -> fn(&[u8], usize) -> u8 {
+    bad_entry_fn_value
+}
+
+// every caller in this crate guards, but the function is public: callers outside the crate are unknown
+pub fn bad_entry_public(v: &[u8], i: usize) -> u8 {
+    v[i]
+}
+
+pub fn entry_caller_f(v: &[u8], i: usize) -> u8 {
+    if i < v.len() {
+        bad_entry_public(v, i)
+    } else {
+        0
+    }
+}
+
+// the guard in the caller is about another slice
+fn bad_entry_other_slice(v: &[u8], i: usize) -> u8 {
+    v[i]
+}
+
+pub fn entry_caller_g(v: &[u8], w: &[u8], i: usize) -> u8 {
+    if i < w.len() {
+        bad_entry_other_slice(v, i)
+    } else {
+        0
+    }
+}
+
+// the parameter is reassigned before use: the entry fact must not survive the assignment
+fn bad_entry_param_reassigned(v: &[u8], mut i: usize) -> u8 {
+    i = i.wrapping_mul(3);
+    v[i]
+}
+
+pub fn entry_caller_h(v: &[u8], i: usize) -> u8 {
+    if i < v.len() {
+        bad_entry_param_reassigned(v, i)
+    } else {
+        0
+    }
+}
+
+// subtraction proved by an ordering fact that holds at the only call site; recursion keeps it
+fn good_entry_ordered(lo: u32, hi: u32, depth: u8) -> u32 {
+    if depth > 0 {
+        good_entry_ordered(lo, hi, depth - 1)
+    } else {
+        hi - lo
+    }
+}
+
+pub fn entry_caller_i(a: u32, b: u32) -> u32 {
+    if a <= b {
+        good_entry_ordered(a, b, 3)
+    } else {
+        0
+    }
+}
+
+// recursion that breaks the fact it relies on
+fn bad_entry_recursion_breaks(lo: u32, hi: u32) -> u32 {
+    if hi > 10 {
+        bad_entry_recursion_breaks(lo, hi / 2)
+    } else {
+        hi - lo
+    }
+}
+
+pub fn entry_caller_j(a: u32, b: u32) -> u32 {
+    if a <= b {
+        bad_entry_recursion_breaks(a, b)
+    } else {
+        0
+    }
+}
+
+// a trait method can be reached through dispatch: never closed
+pub trait EntryTrait {
+    fn bad_entry_trait_method(&self, v: &[u8], i: usize) -> u8;
+}
+
+pub struct EntryImpl;
+
+impl EntryTrait for EntryImpl {
+    fn bad_entry_trait_method(&self, v: &[u8], i: usize) -> u8 {
+        v[i]
+    }
+}
+
+pub fn entry_caller_k(v: &[u8], i: usize) -> u8 {
+    if i < v.len() {
+        EntryImpl.bad_entry_trait_method(v, i)
+    } else {
+        0
+    }
+}
